@@ -25,7 +25,8 @@ EXPLANATION = (
     'the same analysis on the helper).  These are necessary conditions of "parsed without touching memory '
     'outside its arguments".  NOT decided: that the mask test succeeds exactly when the leading prefix-length '
     'bits are equal, the prefix length / network bits produced for CIDR and wildcard texts, agreement with the '
-    'standard parser - all statements about values.')
+    'standard parser - all statements about values.  One table clause of the value part is decided: (TAB.1) the '
+    'prefix offset of an embedded dotted quad is the same constant 8*(16-4) at both sites that add it.')
 ASSUMPTIONS = [
     'clang 14 front end / CFG; integer types as on the build host (LP64)',
     'callers pass a valid NUL-terminated string and a valid irc_inaddr (checked for the daemon\'s own call sites by C06/C08 bounded-copy rules)',
@@ -107,6 +108,27 @@ def cursor_rules(P, R, fns, rule='C13.CUR.1'):
     return n
 
 
+def prefix_offsets(P, R, rule='C13.TAB.1'):
+    """Prefix lengths, table part: an embedded dotted quad occupies the last 32 of the 128 bits, so wherever the
+    parser adds an offset to the prefix length reported by the dotted-quad helper the offset is 8 * (sizeof
+    address - 4), at every site (sibling agreement between the pure IPv4 branch and the IPv6-embedded branch)."""
+    pf = P.need_fn('irc_pton')
+    bitsp = [p['name'] for p in pf.param_info if p.get('t', '').replace('const ', '') == 'unsigned int *']
+    want = None
+    for x in (e for s in pf.sites() for ex in __import__('sa.rules', fromlist=['x']).event_exprs(s.ev) for e in walk(ex)):
+        if x.get('k') == 'mem' and isinstance(x.get('arr'), int) and x.get('elsz'):
+            want = 8 * (x['arr'] * x['elsz'] - 4)
+            break
+    n = 0
+    for s in pf.stores():
+        ev = s.ev
+        lhs = ev.get('lhs') or {}
+        if ev['k'] == 'store' and lhs.get('k') == 'un' and lhs.get('op') == '*' and is_var(lhs.get('e')) and lhs['e']['name'] in bitsp and ev.get('op') == '+=':
+            n += 1
+            R.ob(rule, want is not None and const_of(ev.get('rhs')) == want, s, 'the prefix length of an embedded dotted quad is offset by %s bits (found %s)' % (want, sx(ev.get('rhs'))), key='prefix-offset')
+    R.floor(rule, 2, 'IPv4 branch and IPv6-embedded branch')
+
+
 def run(P, R, tier):
     fns = scope(P)
     if len(fns) < 3:
@@ -116,5 +138,6 @@ def run(P, R, tier):
     R.floor('C13.IDX.2', 1, 'the embedded IPv4 copy')
     R.floor('C13.SHF.1', 3, 'octet shifts and the partial-word shift of the mask test')
     n = cursor_rules(P, R, fns)
+    prefix_offsets(P, R)
     R.floor('C13.CUR.1', 2, 'the parser and its helper scan the input with an index cursor')
     return EXPLANATION, ASSUMPTIONS, {'functions_analysed': [f.name for f in fns], 'subscripts': n_idx, 'block_copies': n_cp, 'shifts': n_sh, 'cursors': n}
